@@ -125,4 +125,19 @@ PROPS = {
         partial=["float types: sum-then-subtract rule is not modelled (bit-comparison planned)",
                  "envelope invariant |var| <= 127*(deg+1) over whole layered iterations (end-to-end no-overflow for the 4 HL 8-bit names) not yet proved"],
     ),
+    "C08": dict(
+        level="proof",
+        trusted_base=[KERNEL, CORR,
+                      "modelled, not verified: std::fmt decimal printing as Nat.toDigits 10, str::split('\\n') / split_whitespace (Unicode White_Space list) / "
+                      "usize::from_str (optional '+', ASCII digits, <= 2^64-1) as the list functions of lean/LdpcV/Model/Alist.lean; usize as Nat",
+                      "declared dimensions above 5000 are outside the property ('moderate declared dimensions') and are skipped by harness and driver"],
+        rule=("writer: 1500 (30000 thorough) matrices of all shapes >= 1x1 up to 10x10 (24x24) and densities incl. zero (plus the all-zero corpus matrices of "
+              "defect D1): alist() and alist_no_padding() text compared character by character with the model, parsed back (same dimensions and ones) and "
+              "checked against the prescribed format; parser: the written texts, 2 mutations of each (token deletion/duplication, index +- nrows, truncation at "
+              "a line, non-numeric / '+3' / overflow-length / Arabic-digit tokens, tab / NBSP / CR / EM-space separators) and 1500 (30000) token soups; outcomes "
+              "ok(matrix with both adjacency lists in order) / err / panic compared with the model; predicate: never a panic; non-trivial = non-zero matrix / any "
+              "parser input; distinct = distinct canonical input"),
+        assumptions=COMMON_ASSUME,
+        partial=[],
+    ),
 }
